@@ -15,6 +15,15 @@ CHECKS = {
             "Generated commit/merge/delete histories and query trees; every query is evaluated through ten access paths on the real index and compared, in both directions, with a reference evaluator over the document model and with each other. Sampling of an unbounded space: small corpora (<=60 docs), depth<=4 trees.",
             "Trusts wv/refquery.py as the documented meaning; FuzzyTerm checked as an interval (variant of edit distance decided in C19); Regex = re.match.",
             "DESIGN.md section 2 C01"),
+    "C15": ("exploration",
+            "property-based testing (Hypothesis): metamorphic relation docs(r(q)) == docs(q) over generated query trees and indexes",
+            "Generated query trees over all public query types (incl. spans, Sequence, NullQuery, empty compounds, overlapping ranges) are rewritten by "
+            "normalize (x1, x2), &, |, -, with_boost, replace(absent), apply/accept(identity), copy, deepcopy, pickle and simplify; the rewritten query must "
+            "select exactly the documents of the original on generated multi-segment indexes, normalize must be idempotent and total, estimate_size an upper bound. "
+            "Two recorded findings (And.normalize range merging / Every(field) absorption, pinned by the repository's own tests) are classified narrowly and excluded.",
+            "The original query's own result set is the reference (absolute correctness is C01). simplify() is not compared for FuzzyTerm nodes whose "
+            "Levenshtein and Damerau readings differ on the corpus (C19 finding).",
+            "DESIGN.md section 2 C15"),
     "C20": ("exploration",
             "property-based testing (Hypothesis): round-trips and model-based operation programs vs dict/list/set/bisect oracles",
             "Generated key/value multisets, ordered key sets with probes, integer lists, external-sort inputs, "
